@@ -7,6 +7,7 @@ import BV.Drive.Header
 import BV.Drive.Multi
 import BV.Drive.Hasher
 import BV.Drive.Recoder
+import BV.Drive.Dict
 
 /-- line protocol: `<engine> <args…>` in, one canonical line out -/
 def dispatch (line : String) : String :=
@@ -21,6 +22,7 @@ def dispatch (line : String) : String :=
   | "adapters" :: rest => BV.Drive.Adapters.handle rest
   | "hasher" :: rest => BV.Drive.Hasher.handle rest
   | "recoder" :: rest => BV.Drive.Recoder.handle rest
+  | "dict" :: rest => BV.Drive.Dict.handle rest
   | _ => "bad-engine"
 
 partial def loop (h : IO.FS.Stream) (out : IO.FS.Stream) : IO Unit := do
